@@ -51,6 +51,7 @@ func init() {
 			c.ruleForcedPrune()
 			c.ruleChangePrune()
 			c.ruleUnfinalizedAncestor()
+			c.ruleForcedFilter()
 			c.min("R-FORCEDPRUNE", 4)
 		})
 }
